@@ -31,11 +31,12 @@ EpochGuard::operator=(          //
     EpochGuard &&rhs) noexcept  //
     -> EpochGuard &
 {
-  if (epoch_ != nullptr) {
+  if (epoch_ != nullptr && epoch_ != rhs.epoch_) {
     epoch_->LeaveEpoch();
   }
-  epoch_ = rhs.epoch_;
+  auto *epoch = rhs.epoch_;
   rhs.epoch_ = nullptr;
+  epoch_ = epoch;
   return *this;
 }
 
